@@ -240,6 +240,7 @@ def check(db, rep, rule_prefix='', explain=True):
         r2.ok('UnpackSet:row-bound', '%d element loops bounded by pos_x < size(input)' % len(loops), '%s:%d' % (uset.file, uset.line))
     else:
         r2.violation('UnpackSet:row-bound', '%s:%d' % (uset.file, uset.line), 'an element loop of UnpackSet is not bounded by the number of rows')
+    _roundtrip(db, rep, rule_prefix)
 
 
 def _tuple_range(f, side):
@@ -368,3 +369,156 @@ def _cells(db, name, f, t):
         return this['pos_y']
     res = it.call(f, [t])
     return len(res) if isinstance(res, list) else None
+
+
+def _roundtrip(db, rep, rule_prefix=''):
+    """r3: Unpack(Pack(v, T), T) = v, with the packer and the unpacker both evaluated from their AST, on a family of typifications (sets of sets, tuples
+    whose components are multi-element sets followed by further components, integers including negative ones, empty sets at every level)."""
+    import itertools
+    from rules import C03
+    r3 = rep.rule(rule_prefix + 'r3', 'ROUND-TRIP: unpacking what the packer wrote for a value of type T gives the value back, for every value of a bounded family', 1)
+    Tm, type_hook = C03.type_hooks(db)
+    pack = db.fn(P + '::Pack', required=False)
+    unpack = db.fn(U + '::Unpack', required=False)
+    if pack is None or unpack is None:
+        r3.broken('anchor vanished: Packer::Pack / Unpacker::Unpack')
+        return
+    ST = {e['name']: e['val'] for e in db.enum('ccl::rslang::StructureType')['enumerators']}
+    O_ = 'ccl::object::'
+
+    def V(v):
+        return Obj(__kind__='sd', v=v)
+
+    def kind(v):
+        return 'basic' if isinstance(v, int) else 'tuple' if isinstance(v, tuple) else 'collection'
+
+    def on_call(it, fn, n, env):
+        cs = n.get('cs') or ''
+        last = cs.split('::')[-1]
+        S = fn.stmts
+
+        def obj():
+            o = it.eval(fn, S[n['obj']], env) if 'obj' in n else None
+            if isinstance(o, tuple) and len(o) == 2 and o[0] == 'ptr':
+                o = o[1]
+            return o
+        if cs.startswith(O_):
+            if cs == O_ + 'Factory::Val':
+                return V(it.eval(fn, S[n['args'][0]], env))
+            if cs == O_ + 'Factory::EmptySet':
+                return V(frozenset())
+            if cs == O_ + 'Factory::Tuple':
+                comps = it.eval(fn, S[n['args'][0]], env)
+                return V(tuple(c['v'] for c in comps))
+            o = obj()
+            if isinstance(o, Obj) and o.get('__kind__') in ('sd', 'sdset', 'sdmod'):
+                v = o['v'] if o['__kind__'] != 'sdmod' else None
+                if last == 'Structure':
+                    return ST[kind(v)]
+                if last in ('E', 'T', 'B'):
+                    if last == 'B' and kind(v) == 'collection':
+                        return Obj(__kind__='sdset', v=v, elems=[V(x) for x in sorted(v, key=repr)])
+                    return o
+                if last == 'ModifyB':
+                    return Obj(__kind__='sdmod', owner=o)
+                if last == 'Value':
+                    return v
+                if last == 'Arity':
+                    return len(v)
+                if last == 'Component':
+                    i = it.eval(fn, S[n['args'][0]], env)
+                    if not (1 <= i <= len(v)):
+                        raise OutOfFragment('data component %s of a %d-tuple' % (i, len(v)))
+                    return V(v[i - 1])
+                if last == 'IsEmpty':
+                    return len(v) == 0
+                if last == 'Cardinality':
+                    return len(v)
+                if last == 'AddElement':
+                    e = it.eval(fn, S[n['args'][0]], env)['v']
+                    owner = o['owner']
+                    new = e not in owner['v']
+                    owner['v'] = frozenset(set(owner['v']) | {e})
+                    return new
+        if n['k'] in ('CXXConstructExpr', 'CXXTemporaryObjectExpr') and (n.get('cls') or '').endswith('StructuredData') and len(n.get('args', [])) == 1:
+            a = it.eval(fn, S[n['args'][0]], env)
+            if isinstance(a, Obj) and a.get('__kind__') == 'sd':
+                return V(a['v'])
+            return a
+        if cs.endswith('Typification::ConstVisit') and 'obj' in n:
+            o = it.eval(fn, S[n['obj']], env)
+            vis = it.eval(fn, S[n['args'][0]], env)
+
+            def walk(t):
+                it.call_lambda(vis, [Tm(t)])
+                if t[0] == 'b':
+                    walk(t[1])
+                elif t[0] == 't':
+                    for c in t[1]:
+                        walk(c)
+            walk(o['v'])
+            return None
+        if cs == '__assert_fail':
+            return None
+        if cs.startswith(('std::vector::',)) and last in ('emplace_back', 'push_back') and 'obj' in n and len(n.get('args', [])) == 1:
+            o = it.eval(fn, S[n['obj']], env)
+            v = it.eval(fn, S[n['args'][0]], env)
+            if isinstance(o, list):
+                o.append(list(v) if isinstance(v, list) else v)      # a vector element is a copy
+                return v
+        if cs.startswith('std::vector::') and last == 'pop_back' and 'obj' in n:
+            o = it.eval(fn, S[n['obj']], env)
+            if isinstance(o, list) and o:
+                o.pop()
+                return None
+        return type_hook(it, fn, n, env)
+    X, Z = ('e', 'X1'), ('e', 'Z')
+    B = lambda t: ('b', t)
+    Pt = lambda *ts: ('t', tuple(ts))
+    fs = frozenset
+    sets_x = [fs(), fs({1}), fs({1, 2}), fs({2, 5, 7})]
+    family = [
+        (X, [1, 7]), (Z, [0, 4, -3]),
+        (B(X), sets_x), (B(Z), [fs(), fs({-3, 0, 4}), fs({-1})]),
+        (B(B(X)), [fs(), fs({fs()}), fs({fs({1}), fs({1, 2})}), fs({fs(), fs({3})})]),
+        (Pt(X, X), [(1, 2)]), (Pt(B(X), X), [(s, 9) for s in sets_x]),
+        (Pt(B(X), X, X), [(s, 7, 8) for s in sets_x]),
+        (Pt(B(X), B(X), B(X)), [(a, b, c) for a in sets_x[:3] for b in sets_x[:3] for c in sets_x[:3]]),
+        (Pt(X, B(X), X, X), [(4, s, 5, 6) for s in sets_x]),
+        (B(Pt(X, X)), [fs(), fs({(1, 2)}), fs({(1, 2), (1, 3), (2, 2)})]),
+        (B(Pt(B(X), X, X)), [fs(), fs({(fs({1, 2}), 7, 8)}), fs({(fs(), 1, 1), (fs({1, 2}), 3, 4), (fs({5}), 3, 4)})]),
+        (B(Pt(X, B(X))), [fs({(1, fs()), (2, fs({1, 2}))})]),
+        (Pt(Pt(X, B(X)), B(Pt(X, X))), [((1, fs({2, 3})), fs({(1, 1), (2, 2)})), ((1, fs()), fs())]),
+    ]
+    bad, cases = None, 0
+
+    def show(v):
+        if isinstance(v, frozenset):
+            return '{' + ', '.join(sorted(show(x) for x in v)) + '}'
+        if isinstance(v, tuple):
+            return '(' + ', '.join(show(x) for x in v) + ')'
+        return str(v)
+    try:
+        for t, values in family:
+            for v in values:
+                cases += 1
+                pk = Obj(compact=[[]])
+                table = Interp(db, on_call=on_call, max_steps=200000).call(pack, [V(v), Tm(t)], pk)
+                table = [list(r) for r in table]
+                up = Obj(input=table, pos_x=0, pos_y=0)
+                try:
+                    back = Interp(db, on_call=on_call, max_steps=200000).call(unpack, [Tm(t)], up)
+                except OutOfFragment as e:
+                    if str(e).startswith(('call to', 'expression kind', 'statement kind', 'unbound', 'field')):
+                        raise
+                    back = ('fault', str(e))
+                got = back['v'] if isinstance(back, Obj) and 'v' in back else back
+                if got != v and bad is None:
+                    bad = 'value %s of type %s packs to %s and unpacks to %s' % (show(v), C03._show_t(t), table, 'nothing' if got is None else ('a fault: %s' % got[1] if isinstance(got, tuple) and got and got[0] == 'fault' else show(got)))
+    except OutOfFragment as e:
+        r3.broken('packer/unpacker outside the evaluable fragment: %s' % e)
+        return
+    if bad:
+        r3.violation('Pack/Unpack', '%s:%d' % (unpack.file, unpack.line), bad)
+    else:
+        r3.ok('Pack/Unpack', 'round trip holds on %d values of %d typifications' % (cases, len(family)), '%s:%d' % (unpack.file, unpack.line))
